@@ -161,6 +161,9 @@ def cmd_prove(a):
 
     known = load_known_findings()
     obligations, refuted, unknown, known_hits = [], [], [], []
+    bounded_obs = []
+    bounded_out_paths = 0
+    modular_used = set()
     undecided_fns, vacuous, bad_canary = [], [], []
     by_backend, solver_ms_total, solver_ms_max, paths = {}, 0.0, 0.0, 0
     fns = []
@@ -169,6 +172,8 @@ def cmd_prove(a):
     for qn, rep in reports.items():
         C = spec.REGISTRY[qn]
         paths += rep.paths
+        bounded_out_paths += rep.bounded_out
+        modular_used |= rep.modular_calls
         inlined |= {x for x in rep.inlined if x != qn}
         models |= rep.models_used
         if rep.undecided:
@@ -188,6 +193,9 @@ def cmd_prove(a):
             kf = [f for f in known if finding_matches(f, prop, ob)]
             if ob.result == 'refuted' and kf:
                 known_hits.append((ob, kf[0]))
+                continue
+            if ob.bounded and ob.result == 'proved':
+                bounded_obs.append(ob)      # bounded stand-in: reported, never counted as proved
                 continue
             obligations.append(ob)
             by_backend[ob.backend] = by_backend.get(ob.backend, 0) + 1
@@ -258,7 +266,8 @@ def cmd_prove(a):
             'refuted': [ob.to_json() for ob in refuted[:20]],
             'unknown': [ob.to_json() for ob in unknown[:20]],
             'undecided_functions': [{'name': qn, 'why': why} for qn, why in undecided_fns],
-            'bounded_standins': [],
+            'bounded_standins': _bounded_summary(bounded_obs, bounded_out_paths),
+            'modular_calls': sorted(modular_used),
         },
         'assumptions': ASSUMED_SEMANTICS + ['dependency model: ' + m for m in sorted(models)],
         'wall_s': round(time.time() - t0, 2),
@@ -269,10 +278,22 @@ def cmd_prove(a):
     os.replace(ev_path + '.tmp', ev_path)
     for ln in lines:
         print(ln)
-    print('property=%s tier=%s functions=%d paths=%d obligations=%d discharged=%d refuted=%d unknown=%d known=%d exit=%d (%.1fs)'
-          % (prop, tier, len(reports), paths, len(obligations), discharged, len(refuted), len(unknown),
+    print('property=%s tier=%s functions=%d paths=%d obligations=%d discharged=%d bounded=%d refuted=%d unknown=%d known=%d exit=%d (%.1fs)'
+          % (prop, tier, len(reports), paths, len(obligations), discharged, len(bounded_obs), len(refuted), len(unknown),
              len(known_hits), status, time.time() - t0))
     return status
+
+
+def _bounded_summary(obs, out_paths):
+    by = {}
+    for ob in obs:
+        key = (ob.fn, tuple(ob.bounded))
+        by[key] = by.get(key, 0) + 1
+    out = [{'function': fn, 'bound': list(b), 'obligations_checked_within_bound': n,
+            'counted_as_proved': False} for (fn, b), n in sorted(by.items())]
+    if out_paths:
+        out.append({'paths_left_unexplored_beyond_the_bound': out_paths})
+    return out
 
 
 def _z3v():
